@@ -25,6 +25,7 @@ type e2SchedArgs struct {
 	AtPoint []string    `json:"at_point"` // oracles evaluated at every decision point: snapshots
 	AtEnd   []string    `json:"at_end"`   // oracles at the end (after closure): log converge applied issued reference snapshots onedoc quiescent
 	NoClose bool        `json:"no_close"` // do not run closing syncs (realtime convergence must happen by itself)
+	Policy  schedPolicy `json:"policy"`   // default schedule around which deviations are counted
 }
 
 // rawRequest performs the request of action a without any harness-side waiting (it runs inside an activity).
@@ -59,6 +60,14 @@ func (m *e2Machine) rawRequest(a pt.Action, errs *[]string, mu *sync.Mutex) {
 		if err != nil {
 			note(fmt.Sprintf("patch: %v", err))
 		}
+	case "mkcoll": // CreateCollection(a.T) as an administrator would call it, possibly several at once
+		if err := m.sys.MakeCollection(a.T); err != nil {
+			note(fmt.Sprintf("create collection %s: %v", a.T, err))
+		}
+	case "resetcoll":
+		if _, err := m.sys.Svc().ResetCollection(gocontext.Background(), &model.CollectionMessage{Collection: a.T}); err != nil {
+			note(fmt.Sprintf("reset collection %s: %v", a.T, err))
+		}
 	case "connect":
 		_, err := m.sys.Svc().ProcessClient(gocontext.Background(), model.NewClientMessage(&model.Client{CUID: c.cuid, Alias: "re", Collection: c.coll}))
 		if err != nil {
@@ -84,6 +93,7 @@ func init() {
 			pp, _ := json.Marshal(sa.E2)
 			m := newE2(pp)
 			x.sched = m.sys.Sched
+			x.policy = sa.Policy
 			// the lock registry's sync.Map operations are scheduling points too
 			allSync := sa.E2.SyncType == "realtime"
 			vsync.Hook = func(p string) {
@@ -196,6 +206,22 @@ func init() {
 								return viol("C19:rest-patch-pushed-a-snapshot-operation", "the log of %s holds a %s operation at position %d (every subscriber resets to it); schedule %v", dt.key, op.typ, i+1, x.trace)
 							}
 						}
+					}
+				}
+				if has(sa.AtEnd, "collections") {
+					// whatever raced: a collection created afterwards gets a number of its own, and all stay distinct
+					for _, name := range []string{"colLater1", "colLater2"} {
+						if err := m.sys.MakeCollection(name); err != nil {
+							return viol("C17:collection-cannot-be-created-after-race", "CreateCollection(%s) after the racing calls: %v; schedule %v", name, err, x.trace)
+						}
+						if v := m.checkCollections(); v != nil {
+							v.Msg += fmt.Sprintf("; schedule %v", x.trace)
+							return v
+						}
+					}
+					if v := m.checkIsolation(); v != nil {
+						v.Msg += fmt.Sprintf("; schedule %v", x.trace)
+						return v
 					}
 				}
 				if has(sa.AtEnd, "onedoc") {
